@@ -778,7 +778,7 @@ vbi3_bit_slicer_set_params	(vbi3_bit_slicer *	bs,
 		if (min_samples_per_bit > (3U << (LP_AVG - 1))) {
 			bs->func = low_pass_bit_slicer_Y8;
 			oversampling = 1;
-			bs->thresh <<= LP_AVG - 2;
+			bs->thresh <<= 2 * LP_AVG - 2;
 			bs->thresh_frac += LP_AVG - 2;
 		}
 		break;
@@ -791,7 +791,7 @@ vbi3_bit_slicer_set_params	(vbi3_bit_slicer *	bs,
 		if (min_samples_per_bit > (3U << (LP_AVG - 1))) {
 			bs->func = low_pass_bit_slicer_Y8;
 			oversampling = 1;
-			bs->thresh <<= LP_AVG - 2;
+			bs->thresh <<= 2 * LP_AVG - 2;
 			bs->thresh_frac += LP_AVG - 2;
 		}
 		break;
@@ -804,7 +804,7 @@ vbi3_bit_slicer_set_params	(vbi3_bit_slicer *	bs,
 		if (min_samples_per_bit > (3U << (LP_AVG - 1))) {
 			bs->func = low_pass_bit_slicer_Y8;
 			oversampling = 1;
-			bs->thresh <<= LP_AVG - 2;
+			bs->thresh <<= 2 * LP_AVG - 2;
 			bs->thresh_frac += LP_AVG - 2;
 		}
 		break;
@@ -816,7 +816,7 @@ vbi3_bit_slicer_set_params	(vbi3_bit_slicer *	bs,
 		if (min_samples_per_bit > (3U << (LP_AVG - 1))) {
 			bs->func = low_pass_bit_slicer_Y8;
 			oversampling = 1;
-			bs->thresh <<= LP_AVG - 2;
+			bs->thresh <<= 2 * LP_AVG - 2;
 			bs->thresh_frac += LP_AVG - 2;
 		}
 		break;
@@ -829,7 +829,7 @@ vbi3_bit_slicer_set_params	(vbi3_bit_slicer *	bs,
 		if (min_samples_per_bit > (3U << (LP_AVG - 1))) {
 			bs->func = low_pass_bit_slicer_Y8;
 			oversampling = 1;
-			bs->thresh <<= LP_AVG - 2;
+			bs->thresh <<= 2 * LP_AVG - 2;
 			bs->thresh_frac += LP_AVG - 2;
 		}
 		break;
@@ -842,7 +842,7 @@ vbi3_bit_slicer_set_params	(vbi3_bit_slicer *	bs,
 		if (min_samples_per_bit > (3U << (LP_AVG - 1))) {
 			bs->func = low_pass_bit_slicer_Y8;
 			oversampling = 1;
-			bs->thresh <<= LP_AVG - 2;
+			bs->thresh <<= 2 * LP_AVG - 2;
 			bs->thresh_frac += LP_AVG - 2;
 		}
 		break;
@@ -855,7 +855,7 @@ vbi3_bit_slicer_set_params	(vbi3_bit_slicer *	bs,
 		if (min_samples_per_bit > (3U << (LP_AVG - 1))) {
 			bs->func = low_pass_bit_slicer_Y8;
 			oversampling = 1;
-			bs->thresh <<= LP_AVG - 2;
+			bs->thresh <<= 2 * LP_AVG - 2;
 			bs->thresh_frac += LP_AVG - 2;
 		}
 		break;
@@ -868,7 +868,7 @@ vbi3_bit_slicer_set_params	(vbi3_bit_slicer *	bs,
 		if (min_samples_per_bit > (3U << (LP_AVG - 1))) {
 			bs->func = low_pass_bit_slicer_Y8;
 			oversampling = 1;
-			bs->thresh <<= LP_AVG - 2;
+			bs->thresh <<= 2 * LP_AVG - 2;
 			bs->thresh_frac += LP_AVG - 2;
 		}
 		break;
@@ -881,7 +881,7 @@ vbi3_bit_slicer_set_params	(vbi3_bit_slicer *	bs,
 		if (min_samples_per_bit > (3U << (LP_AVG - 1))) {
 			bs->func = low_pass_bit_slicer_Y8;
 			oversampling = 1;
-			bs->thresh <<= LP_AVG - 2;
+			bs->thresh <<= 2 * LP_AVG - 2;
 			bs->thresh_frac += LP_AVG - 2;
 		}
 		break;
@@ -894,7 +894,7 @@ vbi3_bit_slicer_set_params	(vbi3_bit_slicer *	bs,
 		if (min_samples_per_bit > (3U << (LP_AVG - 1))) {
 			bs->func = low_pass_bit_slicer_Y8;
 			oversampling = 1;
-			bs->thresh <<= LP_AVG - 2;
+			bs->thresh <<= 2 * LP_AVG - 2;
 			bs->thresh_frac += LP_AVG - 2;
 		}
 		break;
